@@ -8,6 +8,7 @@ import PugModel.Driver.C16
 import PugModel.Driver.C10
 import PugModel.Driver.C19
 import PugModel.Driver.C14
+import PugModel.Driver.C08
 import PugModel.Driver.C15
 /-!
 `pvd`: the model driver. One JSON case per line on stdin (the line the harness produced, with the
@@ -27,6 +28,7 @@ def dispatch (c : Json) : Json × Json :=
   | "gate" => runGateCase c
   | "startup" => runStartupCase c
   | "strip" => runStripCase c
+  | "conc" => runConcCase c
   | "parse" => runParseCase c
   | "asset" => runAssetCase c
   | "clean" => runCleanCase c
